@@ -755,16 +755,19 @@ static void conf_parse_entry(struct conf_parse *parse, struct conf_node_object *
                 ch = conf_parse_whitespace(parse, 1);
                 if (ch == '\0')
                     longjmp(parse->env, PARSE_PREMATURE_EOF);
+                parse->curr--;
                 if (ch == '\n')
                     break;
-                parse->curr--;
                 value = conf_parse_string(parse);
                 string_vector_append(&new_value, value);
                 ch = conf_parse_whitespace(parse, 1);
                 if (ch == '\0')
                     longjmp(parse->env, PARSE_PREMATURE_EOF);
-                if (ch == '\n' || ch == ';')
+                if (ch == '\n' || ch == ';') {
+                    /* The terminator is consumed by the check below. */
+                    parse->curr--;
                     break;
+                }
                 if (ch != ',')
                     longjmp(parse->env, PARSE_EXPECTED_COMMA);
             }
